@@ -7,6 +7,7 @@ import (
 	"fmt"
 	"go/token"
 	"go/types"
+	"strings"
 )
 
 type gStatus int
@@ -28,6 +29,7 @@ type G struct {
 	timer  *vTimer
 	depth  int
 	top    *frame
+	cond   func() bool // blocked goroutine: enabled again when cond() holds
 }
 
 type ChanObj struct {
@@ -111,8 +113,13 @@ func (r *Run) scheduleNext(from *G) {
 		next = main
 	} else {
 		var cands []*G
+		excl := r.exclude
+		r.exclude = nil
 		for _, g := range r.gs {
-			if g.status == gRunnable {
+			if g == excl {
+				continue
+			}
+			if g.status == gRunnable || (g.status == gBlocked && g.cond != nil && g != from && g.cond()) {
 				cands = append(cands, g)
 			}
 		}
@@ -129,6 +136,9 @@ func (r *Run) scheduleNext(from *G) {
 			if tg != nil {
 				cands = append(cands, tg)
 			}
+		}
+		if len(cands) == 0 && excl != nil {
+			cands = append(cands, excl)
 		}
 		switch {
 		case len(cands) == 0:
@@ -188,27 +198,72 @@ func (r *Run) blockUntil(what string, cond func() bool) {
 	for !cond() {
 		g.status = gBlocked
 		g.waitOn = what
+		g.cond = cond
 		r.scheduleNext(g)
 	}
+	g.cond = nil
 }
 
 // wakeAll marks blocked goroutines runnable so that they re-check their conditions.
 func (r *Run) wakeAll() {
-	for _, g := range r.gs {
-		if g.status == gBlocked && (g.timer == nil || g.timer.fired) {
-			g.status = gRunnable
-		}
-	}
+	// blocked goroutines carry their wake-up condition (G.cond); the scheduler evaluates it, so there
+	// are no spurious wake-ups and nothing to do here.
 }
 
-// yield offers a context switch at a synchronisation point.
+// yield offers a context switch at a synchronisation point. Under sched=all every runnable
+// goroutine (and every pending timer) may be chosen, as long as the preemption budget lasts:
+// switching away from a goroutine that could have continued counts as one preemption
+// (context-bounded exploration); switches at blocking points are always free.
 func (r *Run) yield(what string) {
 	if len(r.gs) == 1 {
 		return
 	}
 	g := r.cur
+	if r.job.SchedAll {
+		if r.preemptions >= r.job.PreemptBound {
+			return
+		}
+		if len(r.job.PreemptFuncs) > 0 {
+			// preemption points only inside the designated functions (the code under test)
+			ok := false
+			if g.top != nil {
+				name := g.top.fn.String()
+				for _, p := range r.job.PreemptFuncs {
+					if strings.HasPrefix(name, p) {
+						ok = true
+					}
+				}
+			}
+			if !ok {
+				return
+			}
+		}
+		others := 0
+		for _, x := range r.gs {
+			if x != g && (x.status == gRunnable || (x.status == gBlocked && x.cond != nil && x.cond()) || (x.timer != nil && x.status == gBlocked && !x.timer.stopped && !x.timer.fired)) {
+				others++
+			}
+		}
+		if others == 0 {
+			return
+		}
+		if r.choose(2, "i:preempt:"+what) == 0 {
+			return
+		}
+		r.preemptions++
+		g.status = gRunnable
+		r.scheduleNextExcluding(g)
+		return
+	}
 	g.status = gRunnable
 	r.scheduleNext(g)
+}
+
+// scheduleNextExcluding: like scheduleNext but the current goroutine is not a candidate
+// (it was preempted on purpose).
+func (r *Run) scheduleNextExcluding(from *G) {
+	r.exclude = from
+	r.scheduleNext(from)
 }
 
 func (r *Run) killGoroutines() {
